@@ -159,12 +159,14 @@ class Ctx:
                 continue
             if a1 is None:
                 continue
-            if a0.live and not a1.live:
+            deadc = None
+            if a0.live and (not a1.live or a1.dead is not None):
+                deadc = z3.BoolVal(True) if not a1.live else a1.dead
                 g = allowed(('free', a0.base))
-                if g is True:
+                if g is not True:
+                    add(('free', a0.name or hex(a0.base)), z3.Not(deadc) if (g is False or g is None) else z3.Implies(deadc, g))
+                if not a1.live:
                     continue
-                add(('free', a0.name or hex(a0.base)), z3.BoolVal(False) if (g is False or g is None) else g)
-                continue
             c0 = a0.cells
             c1 = a1.cells
             for off in range(a0.size):
@@ -186,7 +188,8 @@ class Ctx:
                     eq = z3.BoolVal(False)
                 else:
                     eq = cell_term(x) == cell_term(y)
-                add(key, eq if (g is False or g is None) else z3.Or(g, eq))
+                f_ = eq if (g is False or g is None) else z3.Or(g, eq)
+                add(key, f_ if deadc is None else z3.Or(deadc, f_))
         return [('frame:%s' % '.'.join(str(k) for k in key), z3.And(*fs)) for key, fs in sorted(conj.items(), key=lambda kv: str(kv[0]))], ndiff
 
     # ------------------------------------------------------------ verdicts
@@ -284,6 +287,7 @@ PROPS = {
     'persistence': ('C03', 'C02', 'C19',),
     'edges': ('C03', 'C19',),
     'fresh': ('C05',),
+    'dangling': ('C07',),
     'deterministic': ('C19',),
     'order': ('C19',),
     'pos': ('C05',),
@@ -355,6 +359,7 @@ def ob_add(env, N, cap, v=None):
         fr, nd = c.frame(post, allowed)
         cl.append(('add-present-unchanged', z3.And(*[z3.Implies(z3.Not(fresh[i]), z3.And(T1[i] == T[i], P1[i] == P[i], E1[i] == E[i])) for i in range(cap)])))
         cl += [('add-' + n, f) for n, f in fr]
+        cl += dangling(c, post)
         cl += inv_post(c, post)
         c.refute(post, cl, call, props_of)
         env.cover('add on a present grouped vertex', lambda: vm.feasible(post, z3.And(*[z3.Implies(v == i, z3.UGE(T[i], 2)) for i in range(cap)])))
@@ -463,6 +468,44 @@ def label_cells_eq(c, cells, img):
     return z3.And(*cs) if cs else z3.BoolVal(True)
 
 
+def dangling(c, post):
+    """C07: no vertex slot (present or not) may keep a pointer to a datum buffer that this call freed --
+    the next drop of that slot would free it again.  Only evaluated when a buffer changed liveness."""
+    w, vm = c.w, c.vm
+    freed = False
+    for base in c.buf_owner:
+        a1 = post.mem.lookup(base)
+        if a1 is not None and (not a1.live or a1.dead is not None):
+            freed = True
+            break
+    if not freed:
+        return []
+    out = []
+    for i in range(c.cap):
+        conds = []
+        try:
+            dec = decode_hex(c, post, w.a_data(i), want_ptr=True)
+        except Terminal:
+            out.append(('dangling:data%d' % i, z3.BoolVal(False)))
+            continue
+        for cond, n, bs, ptr in dec:
+            s2 = post.fork()
+            s2.assume(cond)
+            s2.assume(z3.UGT(n, 8))
+            if not vm.solver.check(s2.pc, want_model=False)[0]:
+                continue
+            ptrs = [ptr] if isinstance(ptr, int) else vm.values_of(s2, ptr, exact=True)
+            for pv in ptrs:
+                a = post.mem.lookup(pv)
+                here = z3.And(cond, z3.UGT(n, 8), (to_bv(ptr, 64) == pv))
+                if a is None or not a.live:
+                    conds.append(z3.Not(here))
+                elif a.dead is not None:
+                    conds.append(z3.Implies(here, z3.Not(a.dead)))
+        out.append(('dangling:data%d' % i, z3.And(*conds) if conds else z3.BoolVal(True)))
+    return out
+
+
 # ====================================================================== put
 def ob_put(env, N, cap, v=None):
     c = Ctx(env, N, cap)
@@ -552,7 +595,8 @@ def ob_data(env, N, cap, v=None):
             s2.assume(some_b)
             dec = decode_hex(c, s2, out)
             cl.append(('result:bytes', z3.Implies(some_b, z3.And(*[z3.Implies(v == i, hex_equals(dec, y.data[i])) for i in range(cap)]))))
-        cl.append(('persistence', z3.And(*[P1[i] == z3.If(z3.And(v == i, P[i] == STORED), U(TAKEN, 8), P[i]) for i in range(cap)])))
+        gone = [z3.And(last, T[i] == b) for i in range(cap)]      # collected by this call: what their slots hold afterwards is not observable
+        cl.append(('persistence', z3.And(*[z3.Implies(z3.Not(gone[i]), P1[i] == z3.If(z3.And(v == i, P[i] == STORED), U(TAKEN, 8), P[i])) for i in range(cap)])))
         cl.append(('exact', z3.And(*[T1[i] == z3.If(z3.And(last, T[i] == b), U(0), T[i]) for i in range(cap)])))
         cl.append(('removal-safe', z3.And(*[
             z3.Implies(z3.And(T[i] != 0, T1[i] == 0),
@@ -564,9 +608,14 @@ def ob_data(env, N, cap, v=None):
         def allowed(key):
             k = key[0]
             if k == 'tag':
-                return z3.And(last, T[key[1]] == b)
+                return gone[key[1]]
             if k == 'pers':
-                return v == key[1]
+                return z3.Or(v == key[1], gone[key[1]])
+            if k in ('data', 'elen', 'ekey', 'eval'):
+                return gone[key[1]]
+            if k == 'free':
+                i = c.buf_owner.get(key[1])
+                return False if i is None else gone[i]
             if k in ('cnt', 'ctr'):
                 if key[1] < 2:
                     return True if k == 'ctr' else False
@@ -576,6 +625,7 @@ def ob_data(env, N, cap, v=None):
             return False
         fr, nd = c.frame(post, allowed)
         cl += fr
+        cl += dangling(c, post)
         cl += inv_post(c, post)
         c.refute(post, cl, call, props_of)
         env.cover('data collects a group of two or more', lambda: vm.feasible(post, z3.And(last, z3.UGE(c.at(CNT, b), 2))))
@@ -867,9 +917,9 @@ def ob_bind_slots(env, N, cap, v1=0, v2=1):
         fr, nd = c.frame(post, allowed)
         cl += [('slot-formed:' + n_, f) for n_, f in fr]
         c.refute(post, cl, call, props_of)
-        m = vm.get_model(post)
-        if m is not None:
-            chosen.add(m.eval(n1, model_completion=True).as_long())
+        for b in range(2, NSLOT):
+            if b not in chosen and vm.feasible(post, n1 == b):
+                chosen.add(b)
     env.cover('every slot 2..15 is chosen on some path', len(chosen) >= NSLOT - 2)
     env.cover('a path with 13 other slots occupied', lambda: any(
         o.kind == 'ret' and vm.feasible(o.st, z3.And(*[CNT[b] != 0 for b in range(2, NSLOT - 1)])) for o in outs))
